@@ -44,6 +44,46 @@ fn replay_compat(i: usize, case: &Value) -> Option<(String, String)> {
     }
 }
 
+/// "exactly one metadata field differs": copies of the loaded base voice, one of them with one public metadata field changed
+fn replay_field(i: usize, case: &Value) -> Option<(String, String)> {
+    let path = voicegen::scratch(&voicegen::render(&case["voice"]), &format!("vf{}", i));
+    let r = guarded(|| -> Result<(), (String, String)> {
+        let base = load_htsvoice_file(&path).map_err(|e| ("field:load".to_string(), format!("well-formed voice rejected by the loader: {}", e)))?;
+        for c in va(&case["cases"]) {
+            let (field, s, n, pos) = (vs(&c["field"]), vu(&c["stream"]).saturating_sub(1), vu(&c["n"]), vu(&c["pos"]));
+            let mut v = base.clone();
+            match field {
+                "none" => {}
+                "rate" => v.metadata.sampling_frequency += 1,
+                "fperiod" => v.metadata.frame_period += 1,
+                "nstate" => v.metadata.num_states += 1,
+                "nstream" => v.metadata.num_streams += 1,
+                "stream_type" => v.metadata.stream_type[s] = "XXX".to_string(),
+                "vlen" => v.stream_models[s].metadata.vector_length += 1,
+                "nwin" => v.stream_models[s].metadata.num_windows += 1,
+                "msd" => v.stream_models[s].metadata.is_msd = !v.stream_models[s].metadata.is_msd,
+                "usegv" => v.stream_models[s].metadata.use_gv = !v.stream_models[s].metadata.use_gv,
+                "opts" => v.stream_models[s].metadata.option.push("X=1".to_string()),
+                f => die(&format!("unknown metadata field {}", f)),
+            }
+            let base = Arc::new(base.clone());
+            let voices: Vec<Arc<jbonsai::model::Voice>> = (1..=n).map(|k| if k == pos { Arc::new(v.clone()) } else { base.clone() }).collect();
+            let ok = VoiceSet::new(voices).is_ok();
+            if ok != vb(&c["ok"]) {
+                return Err((format!("field:{}", field), format!("{} voices, voice {} differs from the first only in `{}`{}: VoiceSet::new ok={} expected ok={}",
+                    n, pos, field, if vu(&c["stream"]) > 0 { format!(" of stream {}", s) } else { String::new() }, ok, c["ok"])));
+            }
+        }
+        Ok(())
+    });
+    std::fs::remove_file(&path).ok();
+    match r {
+        Ok(Ok(())) => None,
+        Ok(Err(e)) => Some(e),
+        Err(p) => Some((format!("field:panic:{}", p), p)),
+    }
+}
+
 fn weight_vec(w: &Value, tag: &str) -> Vec<f64> {
     let mut v: Vec<f64> = va(w).iter().map(|x| vi(x) as f64 / 8.0).collect();
     match tag {
@@ -249,6 +289,7 @@ pub fn replay(cases_path: &str, out_path: &str, labels_path: &str) {
     }
     let results = par_map(&cases, |i, case| match vs(&case["kind"]) {
         "compat" => replay_compat(i, case),
+        "field" => replay_field(i, case),
         "weights" => replay_weights(base.as_ref().unwrap_or_else(|| die("weights case without voices")), case, &labels),
         "interp" => replay_interp(i, case, &labels),
         "wvoices" => None,
